@@ -368,6 +368,6 @@ RULES = [
     ("R16.3", r16_3, 3),
     ("R16.4", r16_4, 5),
     ("R16.5", r16_5, 5),
-    ("R16.6", r16_6, 4),
+    ("R16.6", r16_6, 2),
     ("R16.7", r16_7, 1),
 ]
